@@ -600,7 +600,7 @@ def gen_tuple_fixed(rng, opts=None):
         vals.append(rng.choice(GOOD[nm] if ch == "g" else BAD[nm]))
     o = opts or rand_opts(rng)
     o = dict(o)
-    add = rng.choice([None, None, True, False, "int"])
+    add = rng.choice([None, None, True, False, "int", "int", LEAVES["posint"]])
     if add is not None:
         o["addition"] = add
     return {"op": "container", "type": {"tuple_fixed": [LEAVES[x] for x in names]}, "opts": o, "via": "rule",
@@ -680,13 +680,13 @@ def gen_func(rng, opts=None, pattern=None, kwpat=None):
 
 def gen_case(rng):
     r = rng.random()
-    if r < 0.38:
+    if r < 0.36:
         return gen_seq(rng)
-    if r < 0.62:
+    if r < 0.58:
         return gen_map(rng)
-    if r < 0.84:
+    if r < 0.80:
         return gen_schema(rng)
-    if r < 0.94:
+    if r < 0.90:
         return gen_func(rng)
     return gen_tuple_fixed(rng)
 
@@ -704,7 +704,7 @@ def all_opts():
 
 def exhaustive_cases(rng, tier):
     out = []
-    maxlen = 3 if tier == "quick" else 5
+    maxlen = 4 if tier == "quick" else 6
     for kind in SEQ_KINDS:
         for n in range(0, maxlen + 1):
             for pat in placements(n):
@@ -717,7 +717,7 @@ def exhaustive_cases(rng, tier):
                         out.append(gen_seq(rng, kind=kind, pattern=pat, opts=o, via="rule",
                                            ename=rng.choice(["int", "posint", "str3"]), form=kind))
     # mappings: every entry shape sequence with <=3 bad entries, all 27 combinations
-    maxent = 2 if tier == "quick" else 4
+    maxent = 3 if tier == "quick" else 4
     for n in range(0, maxent + 1):
         for ent in itertools.product(["gg", "bg", "gb", "bb"], repeat=n):
             if sum(e != "gg" for e in ent) > 3:
@@ -861,7 +861,7 @@ class C11(Check):
             "element types, data classes (1-4 fields: required/optional/default x on_error x addition None/True/False/type x "
             "both lookup strategies), and *args/**kwargs functions, each under random 3x3x3 policy combinations with 0-3 "
             "offending elements at random positions, reached through type_transform, a Schema field or a @parse function; "
-            "plus exhaustive placements (quick: len<=3; thorough: every placement of <=3 offenders in len<=5 x all 27 "
+            "plus exhaustive placements (quick: len<=4; thorough: every placement of <=3 offenders in len<=6 x all 27 "
             "combinations, every <=4-entry mapping shape x 27, the full one-field grid). non-trivial = the real converters "
             "found >=1 offending element in the case; distinct by (kind/type, policies, entry route, offender placement "
             "as measured on the real code, input)")
@@ -870,8 +870,8 @@ class C11(Check):
         "fail-fast parsing (collect_errors=False), no max_depth, fields without alias/no_input/dependencies/mode: outside this fragment the model does not speak",
         "the dict/set built from the model's insertion log is constructed by CPython in the harness",
     ]
-    budget = {"quick": 1400, "thorough": 24000}
-    search_budget = {"quick": 2500, "thorough": 20000}
+    budget = {"quick": 5000, "thorough": 100000}
+    search_budget = {"quick": 4000, "thorough": 30000}
 
     def cases(self, tier, rng, n):
         out = []
@@ -1190,7 +1190,7 @@ class C11(Check):
             "every placement of <=3 offenders in sequences of length <=%d for list/set/frozenset/Tuple[T,...] x %s; every "
             "mapping of <=%d entries over {ok, bad key, bad value, both} x 27 policy combinations; one-field data classes "
             "over shape x on_error x presence x invalid_values x addition x extra key x lookup strategy; *args placements"
-            % ((3, "3 item policies", 2) if tier == "quick" else (5, "all 27 policy combinations", 4)))
+            % ((4, "3 item policies", 3) if tier == "quick" else (6, "all 27 policy combinations", 4)))
 
 
 CHECK = C11()
